@@ -137,7 +137,11 @@ type StaticCfg struct {
 }
 
 func DrawStaticCfg(t *sim.T, big bool) StaticCfg {
+	huge := big && t.Chance(1, 25) // tables of hundreds to thousands of rows: capacity thresholds (512, 1024, ...)
 	lim := func(small, large int) int {
+		if huge && t.Chance(1, 2) {
+			return t.Range(300, 2600)
+		}
 		if big && t.Chance(1, 3) {
 			return t.Range(0, large)
 		}
